@@ -93,6 +93,8 @@ pub enum Op {
     AdvanceFrac { slot: u8, f: u8 },
     PopFront { slot: u8 },
     Read { slot: u8, n: u16 },
+    /// The provided methods of `std::io::Read` on the consumer: read_to_end, io::copy, read_exact, read_vectored, take(n).read_to_end.
+    ReadVia { slot: u8, how: u8, n: u16 },
 }
 
 #[derive(Clone, Debug, PartialEq, Eq, Hash, Serialize, Deserialize)]
@@ -847,6 +849,77 @@ impl World {
                     s.mutated_since_split = true;
                 }
             }
+            Op::ReadVia { slot, how, n } => {
+                use std::io::Read;
+                let si = self.pick_slot(*slot);
+                let s = &mut self.slots[si];
+                let prefix: Vec<usize> = s.io.stable_prefix().iter().map(|x| x.len()).collect();
+                let avail: usize = prefix.iter().sum();
+                let n = *n as usize;
+                let ioerr = |what: &str, e: std::io::Error| fail("read_via:error", format!("{what} failed: {e}"));
+                // (what was called, the count it reported, the bytes it handed over, the count it had to report)
+                let (what, reported, bytes, want): (&str, usize, Vec<u8>, usize) = match how % 5 {
+                    0 => {
+                        let mut dst = vec![0xa5u8; n % 4];
+                        let got = s.io.consumer().read_to_end(&mut dst).map_err(|e| ioerr("read_to_end", e))?;
+                        if dst.len() < n % 4 || dst[..n % 4].iter().any(|b| *b != 0xa5) {
+                            return Err(fail("read_via:clobbers", "read_to_end changed what the vector already held".to_string()));
+                        }
+                        ("read_to_end", got, dst[n % 4..].to_vec(), avail)
+                    }
+                    1 => {
+                        let mut dst = Vec::new();
+                        let got = std::io::copy(&mut s.io.consumer(), &mut dst).map_err(|e| ioerr("io::copy", e))?;
+                        ("io::copy", got as usize, dst, avail)
+                    }
+                    2 => {
+                        let k = n.min(avail);
+                        let mut dst = vec![0u8; k];
+                        s.io.consumer().read_exact(&mut dst).map_err(|e| ioerr("read_exact (of no more than is consumable)", e))?;
+                        ("read_exact", k, dst, k)
+                    }
+                    3 => {
+                        let (mut a, mut b) = (vec![0u8; n % 7], vec![0u8; n / 7]);
+                        let total = a.len() + b.len();
+                        let got = {
+                            let mut bufs = [std::io::IoSliceMut::new(&mut a), std::io::IoSliceMut::new(&mut b)];
+                            s.io.consumer().read_vectored(&mut bufs).map_err(|e| ioerr("read_vectored", e))?
+                        };
+                        if got > total.min(avail) || (got == 0 && total.min(avail) > 0) {
+                            return Err(fail("read_via:count", format!("read_vectored into {total} bytes returned {got} with {avail} consumable bytes")));
+                        }
+                        a.extend_from_slice(&b);
+                        a.truncate(got);
+                        ("read_vectored", got, a, got)
+                    }
+                    _ => {
+                        let mut dst = Vec::new();
+                        let mut consumer = s.io.consumer();
+                        let got = (&mut consumer).take(n as u64).read_to_end(&mut dst).map_err(|e| ioerr("take(n).read_to_end", e))?;
+                        ("take(n).read_to_end", got, dst, n.min(avail))
+                    }
+                };
+                if reported != want || bytes.len() != want {
+                    return Err(fail(
+                        "read_via:count",
+                        format!("{what} (n = {n}) reported {reported} bytes and handed over {}, with {avail} consumable bytes it had to be {want}", bytes.len()),
+                    ));
+                }
+                if bytes[..] != s.m.stream[s.m.consumed..s.m.consumed + want] {
+                    return Err(fail(
+                        "read_via:content",
+                        format!("{what} handed over {}, the pipe holds {}", show(&bytes), show(&s.m.stream[s.m.consumed..s.m.consumed + want])),
+                    ));
+                }
+                s.m.observed = s.m.observed.max(s.m.consumed + avail);
+                s.m.consumed += want;
+                if want > 0 {
+                    s.mutated_since_split = true;
+                    if !s.m.pending.is_empty() {
+                        self.stats.consume_while_pending += 1;
+                    }
+                }
+            }
             Op::Read { slot, n } => {
                 let si = self.pick_slot(*slot);
                 let s = &mut self.slots[si];
@@ -1238,6 +1311,7 @@ fn op_name(op: &Op) -> &'static str {
         Op::Advance { .. } | Op::AdvanceFrac { .. } => "advance_slices",
         Op::PopFront { .. } => "pop_front",
         Op::Read { .. } => "read",
+        Op::ReadVia { .. } => "read_via",
     }
 }
 
@@ -1381,6 +1455,7 @@ pub fn op(mix: Mix) -> BoxedStrategy<Op> {
         2 => (slot(), any::<u8>()).prop_map(|(slot, f)| Op::AdvanceFrac { slot, f }),
         1 => slot().prop_map(|slot| Op::PopFront { slot }),
         2 => (slot(), prop_oneof![0u16..20, 0u16..400]).prop_map(|(slot, n)| Op::Read { slot, n }),
+        1 => (slot(), 0u8..5, prop_oneof![0u16..20, 0u16..400]).prop_map(|(slot, how, n)| Op::ReadVia { slot, how, n }),
     ];
     let arena = prop_oneof![
         2 => slot().prop_map(|slot| Op::Flush { slot }),
